@@ -552,6 +552,21 @@ func c01SelfRef(w *run.Worker) {
 			rt.If(Id(k), rt.Block(rt.Call("p", I(1)))),
 		}
 	}
+	// a value in which the same container occurs many times (a DAG with 2^40 paths but 41 nodes): storing
+	// it, taking its length, iterating and comparing it take time proportional to what exists, not to the paths
+	if w.Take() {
+		dag := []*rt.Node{
+			rt.Assign("=", Id("d"), rt.List(I(1))),
+			rt.For(rt.Assign("=", Id("j"), I(0)), rt.Bin("<", Id("j"), I(40)), rt.Assign("=", Id("j"), rt.Bin("+", Id("j"), I(1))), rt.Block(rt.Assign("=", Id("d"), rt.List(Id("d"), Id("d"))))),
+			rt.Assign("=", Id("x"), rt.List(I(0), rt.Map())),
+			rt.Assign("=", rt.Index("x", I(0)), Id("d")),
+			rt.Assign("=", rt.Index("x", I(1), S("k")), Id("d")),
+			rt.Assign("=", rt.Index("d", I(0)), I(5)),
+			rt.Call("p", rt.Call("len", Id("x")), rt.Call("len", Id("d"))),
+			rt.ForIn("v", Id("d"), rt.Block(rt.Call("p", rt.Call("len", Id("v"))))),
+		}
+		c01RunOne(w, dag, true)
+	}
 	for _, mk := range makers {
 		for _, k := range []string{"l", "m", "x"} {
 			for ci := range consumers(k) {
